@@ -227,6 +227,7 @@ impl<'a, N: Normalizer> Html5Serializer<'a, N> {
                 // we don't want to output non-empty prefixes unless the
                 // element has an attribute with the same prefix
                 if namespace_id == &self.xot.xml_namespace()
+                    || *prefix_id == self.xot.xml_prefix()
                     || (*prefix_id == self.xot.empty_prefix()
                         && self.xot.namespace_for_name(element_name) != *namespace_id)
                     || (*prefix_id != self.xot.empty_prefix()
